@@ -394,6 +394,10 @@ neu('N-mask-axis-keyword', ALLP, [('pb_bss/extraction/mask_module.py', "    mask
 neu('N-sxr-rename-powers', ALLP, [('pb_bss/evaluation/sxr_module.py', "    SDR = _sxr(SS, II + NN)\n    SIR = _sxr(SS, II)\n    SNR = _sxr(SS, NN)", "    SDR = _sxr(SS, NN + II)\n    SIR = _sxr(SS, II)\n    SNR = _sxr(SS, NN)", False)])
 neu('N-gaussian-postinit-temp', ALLP, [(D + 'gaussian.py', "        self.log_det_precision_cholesky = np.reshape(\n            _compute_log_det_cholesky(pc, 'full', D),\n            self.covariance.shape[:-2]\n        )", "        flat_log_det = _compute_log_det_cholesky(pc, 'full', D)\n        leading = self.covariance.shape[:-2]\n        self.log_det_precision_cholesky = np.reshape(flat_log_det, leading)", False)])
 neu('N-vmf-clip-keywords', ALLP, [(D + 'von_mises_fisher.py', "        concentration = np.clip(\n            concentration, min_concentration, max_concentration\n        )", "        concentration = np.clip(concentration, a_min=min_concentration, a_max=max_concentration)", False)])
+neu('N-sxr-rename-locals', ALLP, [('pb_bss/evaluation/sxr_module.py', "K_source", "n_src", True), ('pb_bss/evaluation/sxr_module.py', "all_target_selections", "picks", True),
+                                   ('pb_bss/evaluation/sxr_module.py', "k_source", "i_src", True), ('pb_bss/evaluation/sxr_module.py', "max_idx", "best", True)])
+neu('N-input-sxr-rename', ALLP, [('pb_bss/evaluation/sxr_module.py', "                S[[n for n in range(K) if n != k], d],", "                S[[j for j in range(K) if k != j], d],", False)])
+neu('N-unsqueeze-rename', ALLP, [('pb_bss/utils.py', "future_ndim", "rank_after", True)])
 neu('N-add-unrelated-public-function', ALLP, [('pb_bss/extraction/mask_module.py', "def biased_binary_mask(", "def mask_energy(mask):\n    \"\"\"Sum of squares (new helper).\"\"\"\n    mask = np.asarray(mask)\n    return np.sum(mask ** 2)\n\n\ndef biased_binary_mask(", False)])
 neu('N-psd-copy-via-array', ALLP, [('pb_bss/extraction/beamformer.py', "        mask = np.copy(mask)\n", "        mask = np.array(mask, copy=True)\n", False)])
 neu('N-gcacgmm-commute-streams', ALLP, [(D + 'gcacgmm.py',
